@@ -123,7 +123,8 @@ MSG_FAULTS = (
      ("err_0", False, True, EXSV), ("err_255", False, True, EXSV), ("err_256", False, True, EXSV),
      ("err_4096", False, True, EXSV), ("err_70000", True, True, EXSV), ("err_over_max", False, True, ALL3),
      ("val_int_trunc", False, True, ALL3), ("val_str_len_ffffffff", False, True, ALL3),
-     ("val_str_len_7fffffff", False, True, ALL3), ("val_str_len_plus1", False, True, ALL3),
+     ("val_str_len_fffffffb", False, True, ALL3),
+     ("val_str_len_7fffffff", False, True, ALL3), ("val_str_len_plus1", False, True, ALL3), ("val_big_str_over", False, True, ALL3),
      ("val_str_no_len", False, True, ALL3), ("val_arr_count_ffffffff", False, True, ALL3),
      ("val_arr_count_ffffffff_one", False, True, ALL3), ("val_arr_count_short", False, True, ALL3),
      ("val_arr_no_count", False, True, ALL3), ("val_nested_trunc", False, True, ALL3),
@@ -131,8 +132,9 @@ MSG_FAULTS = (
      ("val_wrong_type", False, True, EXSV), ("val_wrong_type2", False, True, EXSV)])
 
 
-def one_fault_cells(victim):
-    """Every (step, k, fault, after) of the 1-fault product for one victim."""
+def one_fault_cells(victim, reply_tags=None):
+    """Every (step, k, fault, after) of the 1-fault product for one victim.  `reply_tags` = wire tag
+    of the fault-free reply to request k (from the relay control run)."""
     cells = []
     for f in PROC_FAULTS:
         cells.append(("pre_ready", 0, f, "-"))
@@ -146,6 +148,10 @@ def one_fault_cells(victim):
                 cells.append(("pre_ready", 0, f, a))
             if at_reply:
                 for k in range(1, K + 1):
+                    if f == "val_empty" and reply_tags and reply_tags[k - 1] in NULLABLE_TAGS:
+                        # an empty RESULT is how "no value" looks; for a call that returns a string or an
+                        # array that is a legal reply (NULL) with a wrong value, not a garbled one
+                        continue
                     cells.append(("pre_reply", k, f, a))
     if victim == "D":
         # the one step that needs the big INIT; close_stdout would leave the VM blocked in write() for
@@ -153,6 +159,9 @@ def one_fault_cells(victim):
         cells = [("init_unread", 0, f, "-") for f in PROC_FAULTS if f != "close_stdout"] + \
                 [c for c in cells if c[2] in PROC_FAULTS and c[0] in ("pre_ready", "post_ready")]
     return cells
+
+
+NULLABLE_TAGS = (0x00, 0x05, 0x07)      # TAG_VOID, TAG_STRING, TAG_ARRAY (src/nanoisa/isa.h)
 
 
 def script_of(cells):
@@ -337,6 +346,11 @@ def judge(vinfo, cells, obs, base, reqmap):
     _src, status0, before, total = vinfo
     rc, out, err = obs["rc"], obs["stdout"], obs["stderr"]
     problems = []
+    if obs["injected"] and obs["injected"][-1][3] == "val_empty":
+        # (only reachable for second faults; first faults of this kind are not generated, see one_fault_cells)
+        tag = [l.split()[4][:2] for l in obs["log"] if l.startswith("REPLY %s %s " % (obs["injected"][-1][0], obs["injected"][-1][2]))]
+        if tag and int(tag[0], 16) in NULLABLE_TAGS:
+            return True, "excluded:null-result-is-a-legal-reply", ""
     if rc == "timeout":
         return False, "hang", "nano_vm still running after %d s" % HANG_TIMEOUT
     san = [m.decode() for m in SAN_MARKS if m in err]
@@ -387,7 +401,7 @@ def signature(obs):
     """What two replays of one cell must agree on."""
     err = obs["stderr"]
     return (obs["rc"], obs["stdout"], bool(err.strip()), any(m in err for m in SAN_MARKS),
-            tuple(sorted(obs["remains"])), tuple(obs["injected"]), obs["launches"])
+            tuple(sorted(c for c, _s in obs["remains"])), tuple(obs["injected"]), obs["launches"])
 
 
 def _job(args):
@@ -454,8 +468,11 @@ def controls(ctx, victims):
             rm.setdefault(w[4], i + 1)
         if len(rm) != K:
             raise common.HarnessError("victim %s: the %d requests are not pairwise distinct" % (v, K))
+        reps = [l.split() for l in relay["log"] if l.startswith("REPLY ")]
+        if len(reps) != K or any(len(w) < 5 or int(w[3]) < 2 for w in reps):
+            raise common.HarnessError("victim %s: every reply must carry a payload of >= 2 bytes: %r" % (v, reps))
         base[v] = (inproc[0], inproc[1])
-        reqmaps[v] = rm
+        reqmaps[v] = dict(rm, _reply_tags=[int(w[4][:2], 16) for w in reps])
     return base, reqmaps
 
 
@@ -491,7 +508,7 @@ def run(tier):
         ctx = setup(variant, linger_ms, victims)
         ctxs[variant] = ctx
         bases[variant], reqmaps[variant] = controls(ctx, victims)
-        jobs = [(ctx, v, [c]) for v in victims for c in one_fault_cells(v)]
+        jobs = [(ctx, v, [c]) for v in victims for c in one_fault_cells(v, reqmaps[variant][v]["_reply_tags"])]
         stages = [("1-fault", jobs)]
         if tier == "thorough" and variant == "plain":
             stages.append(("2-fault", None))        # built from the relaunches observed in stage 1
@@ -500,7 +517,7 @@ def run(tier):
             if sjobs is None:
                 sjobs = []
                 for v, c1 in relaunchers:
-                    for c2 in one_fault_cells(v):
+                    for c2 in one_fault_cells(v):          # reply tags of the relaunched cop's k-th request are not those of call k
                         sjobs.append((ctx, v, [c1, c2]))
                 seq_done = True
                 rep.coverage["two_fault_first_faults"] = len(relaunchers)
